@@ -292,6 +292,63 @@ fn check_tx_view(what: &str, v: &core::TransactionView, bytes: &[u8], want: (H, 
         hx(&want.1),
         hx(bytes)
     );
+    {
+        // derived accessors restate the packed data
+        let raw = v.data().raw();
+        let n_out = raw.outputs().len();
+        let pts = v.output_pts();
+        vensure!(
+            pts.len() == n_out
+                && pts.iter().enumerate().all(|(i, p)| h32(&p.tx_hash()) == want.0 && Into::<u32>::into(p.index()) == i as u32)
+                && v.output_pts_iter().map(|p| p.as_slice().to_vec()).collect::<Vec<_>>() == pts.iter().map(|p| p.as_slice().to_vec()).collect::<Vec<_>>(),
+            format!("txhash:{what}:output_pts"),
+            "{what}: output_pts() are not (ckbhash(raw), 0..{n_out})"
+        );
+        vensure!(
+            v.input_pts_iter().map(|p| p.as_slice().to_vec()).collect::<Vec<_>>()
+                == raw.inputs().into_iter().map(|i| i.previous_output().as_slice().to_vec()).collect::<Vec<_>>()
+                && v.cell_deps_iter().map(|p| p.as_slice().to_vec()).collect::<Vec<_>>() == raw.cell_deps().into_iter().map(|d| d.as_slice().to_vec()).collect::<Vec<_>>()
+                && v.header_deps_iter().map(|p| p.as_slice().to_vec()).collect::<Vec<_>>() == raw.header_deps().into_iter().map(|d| d.as_slice().to_vec()).collect::<Vec<_>>(),
+            format!("txhash:{what}:input/dep-iterators"),
+            "{what}: input_pts_iter / cell_deps_iter / header_deps_iter differ from the raw transaction"
+        );
+        let parents: std::collections::BTreeSet<Vec<u8>> = v.unique_parents().into_iter().map(|h| h.as_slice().to_vec()).collect();
+        let want_parents: std::collections::BTreeSet<Vec<u8>> = raw.inputs().into_iter().map(|i| i.previous_output().tx_hash().as_slice().to_vec()).collect();
+        vensure!(parents == want_parents, format!("txhash:{what}:unique_parents"), "{what}: unique_parents() is not the set of input transaction hashes");
+        let n_data = raw.outputs_data().len();
+        for i in 0..=n_out {
+            vensure!(
+                v.output(i).map(|o| o.as_slice().to_vec()) == raw.outputs().get(i).map(|o| o.as_slice().to_vec()),
+                format!("txhash:{what}:output(i)"),
+                "{what}: output({i}) differs from the raw transaction"
+            );
+            // output_with_data documents well-formed transactions (outputs_data as long as outputs)
+            if n_data >= n_out {
+                let got = v.output_with_data(i).map(|(o, d)| (o.as_slice().to_vec(), d.to_vec()));
+                let wantd = raw.outputs().get(i).map(|o| (o.as_slice().to_vec(), raw.outputs_data().get(i).map(|d| d.raw_data().to_vec()).unwrap_or_default()));
+                vensure!(got == wantd, format!("txhash:{what}:output_with_data(i)"), "{what}: output_with_data({i}) differs from the raw transaction");
+            }
+        }
+        let zipped: Vec<(Vec<u8>, Vec<u8>)> = v.outputs_with_data_iter().map(|(o, d)| (o.as_slice().to_vec(), d.to_vec())).collect();
+        let want_zip: Vec<(Vec<u8>, Vec<u8>)> = raw
+            .outputs()
+            .into_iter()
+            .zip(raw.outputs_data().into_iter())
+            .map(|(o, d)| (o.as_slice().to_vec(), d.raw_data().to_vec()))
+            .collect();
+        vensure!(zipped == want_zip, format!("txhash:{what}:outputs_with_data_iter"), "{what}: outputs_with_data_iter differs from the raw transaction");
+        // the repository's definition (gen-types shortcut.rs): one input, the null out point, one witness
+        let null_input = raw.inputs().len() == 1
+            && v.data().witnesses().len() == 1
+            && raw.inputs().get(0).map(|i| i.previous_output().tx_hash().as_slice().iter().all(|b| *b == 0) && Into::<u32>::into(i.previous_output().index()) == u32::MAX).unwrap_or(false);
+        vensure!(
+            v.is_cellbase() == null_input,
+            format!("txhash:{what}:is_cellbase"),
+            "{what}: is_cellbase() = {} but the transaction {} exactly one input with the null out point and one witness",
+            v.is_cellbase(),
+            if null_input { "has" } else { "does not have" }
+        );
+    }
     vensure!(
         v.proposal_short_id().as_slice() == &want.0[..10],
         format!("txhash:{what}:proposal-short-id"),
@@ -554,6 +611,77 @@ fn check_block_view(what: &str, s: &Schema, ty: &str, want_val: &Val, v: &core::
             format!("block:{what}:uncle-view-hash-differs"),
             "{what}: uncles()[{i}] carries a wrong hash"
         );
+    }
+    // accessors by index hand out the same data and the same caches as the list accessors
+    let txs = v.transactions();
+    for i in 0..=txs.len() {
+        match (v.transaction(i), txs.get(i)) {
+            (None, None) => {}
+            (Some(t), Some(l)) => {
+                vensure!(
+                    t.data().as_slice() == l.data().as_slice()
+                        && h32(&t.hash()) == x.tx_hashes[i]
+                        && h32(&t.witness_hash()) == x.witness_hashes[i],
+                    format!("block:{what}:transaction(i)-differs-from-transactions()[i]"),
+                    "{what}: transaction({i}) hash {} witness_hash {} but ckbhash(raw) {} ckbhash(tx) {}",
+                    hx(t.hash().as_slice()),
+                    hx(t.witness_hash().as_slice()),
+                    hx(&x.tx_hashes[i]),
+                    hx(&x.witness_hashes[i])
+                );
+                let outs = l.data().raw().outputs();
+                for oi in 0..=outs.len() {
+                    vensure!(
+                        v.output(i, oi).map(|o| o.as_slice().to_vec()) == outs.get(oi).map(|o| o.as_slice().to_vec())
+                            && l.output(oi).map(|o| o.as_slice().to_vec()) == outs.get(oi).map(|o| o.as_slice().to_vec()),
+                        format!("block:{what}:output(tx,i)-differs"),
+                        "{what}: output({i}, {oi}) is not output {oi} of transaction {i}"
+                    );
+                }
+            }
+            (a, b) => vfail!(
+                format!("block:{what}:transaction(i)-presence-differs"),
+                "{what}: transaction({i}) is_some={} but transactions() has {} entries",
+                a.is_some(),
+                if b.is_some() { "more" } else { "fewer" }
+            ),
+        }
+    }
+    vensure!(v.output(txs.len(), 0).is_none(), format!("block:{what}:output(tx,i)-differs"), "{what}: output of a transaction past the end");
+    let uncles = v.uncles();
+    let n_uncles = uncles.data().len();
+    for i in 0..=n_uncles {
+        match uncles.get(i) {
+            None => vensure!(i == n_uncles, format!("block:{what}:uncles.get(i)-differs"), "{what}: uncles().get({i}) is None, {n_uncles} uncles"),
+            Some(u) => {
+                vensure!(
+                    i < n_uncles
+                        && h32(&u.hash()) == x.uncle_hashes[i]
+                        && u.data().as_slice() == v.data().uncles().get(i).map(|d| d.as_slice().to_vec()).unwrap_or_default().as_slice()
+                        && h32(&u.header().hash()) == x.uncle_hashes[i],
+                    format!("block:{what}:uncles.get(i)-differs"),
+                    "{what}: uncles().get({i}) carries hash {} want {:?}",
+                    hx(u.hash().as_slice()),
+                    x.uncle_hashes.get(i).map(|h| hx(h))
+                );
+            }
+        }
+    }
+    {
+        let au = v.as_uncle();
+        vensure!(
+            h32(&au.hash()) == x.header_hash
+                && au.data().header().as_slice() == v.data().header().as_slice()
+                && au.data().proposals().as_slice() == v.data().proposals().as_slice(),
+            format!("block:{what}:as_uncle-differs"),
+            "{what}: as_uncle() does not carry the block's header, proposals and hash"
+        );
+        let mut want_ids: std::collections::BTreeSet<Vec<u8>> = v.data().proposals().into_iter().map(|p| p.as_slice().to_vec()).collect();
+        for u in v.data().uncles().into_iter() {
+            want_ids.extend(u.proposals().into_iter().map(|p| p.as_slice().to_vec()));
+        }
+        let got_ids: std::collections::BTreeSet<Vec<u8>> = v.union_proposal_ids().into_iter().map(|p| p.as_slice().to_vec()).collect();
+        vensure!(got_ids == want_ids, format!("block:{what}:union_proposal_ids-differs"), "{what}: union_proposal_ids() is not the union of the block's and its uncles' proposals");
     }
     vensure!(
         h32(&v.header().hash()) == x.header_hash && v.header().data().as_slice() == s.encode("Header", fld(s, ty, want_val, "header")),
